@@ -32,6 +32,8 @@ CLAIMS = {
             "ORD/MPT/TAG/typestate rules over clang AST/CFG", "3 C14"),
     "C11": ("protocol-shape rules on the POSIX implementation: lock-state dataflow (pairing on every path, condition waits only with the lock), flag accesses inside the critical section, waits re-check in a loop and Monitor consumes the flag, set publishes under the lock then notifies (broadcast vs signal), timed waits fail only through the timed primitive, deadline arithmetic by dimension typing + interval analysis + sibling agreement, recursive mutex attribute, Thread handle/join discipline, storage sizes, thin Semaphore mapping; the contracts under all interleavings as such, fairness and the pthread primitives' behaviour are NOT decided",
             "lock-state dataflow + DOM/MPT rules + unit typing + interval analysis over clang AST/CFG", "3 C11"),
+    "C15": ("parser-cursor abstract interpretation (bytes known non-NUL at the cursor, join = min) over readToken/skipSpace/stripComments: no advance or offset read beyond what dominating tests establish, every tokenizer loop cycle advances; table agreement between the string reader's special bytes and the writer's escapes with round-trip of each escape; serialiser/parser exhaustiveness over tags and token kinds; stripComments output bound and string-mode typestate; equality of re-parsed trees in general and recursion depth are NOT decided",
+            "CUR abstract interpretation + TBL/TAG table rules over clang AST/CFG", "3 C15"),
     "C08": ("path and pairing rules over every Buffer member: terminator after every end update on owning paths, ownership<->capacity pairing, allocation X+1 with _capacity X, release/re-seat pairing, complete swap, rule of three, and linear-inequality entailment (own Fourier-Motzkin over dominating guards + class invariant) that every copy/move target and terminator store lies inside the allocation; content equality with a reference byte queue is NOT decided",
             "MPT/PAIRF path rules + linear-inequality abstract domain over clang AST/CFG", "3 C08"),
 }
